@@ -16,7 +16,7 @@ impl AsRef<[u8]> for Own { fn as_ref(&self) -> &[u8] { &self.0 } }
 
 struct Shared { bad_reads: AtomicUsize, zero_copy: AtomicUsize, start: AtomicUsize, nthreads: usize }
 impl Shared {
-    fn wait(&self) { self.start.fetch_add(1, Ordering::SeqCst); while self.start.load(Ordering::SeqCst) < self.nthreads { std::hint::spin_loop(); } }
+    fn wait(&self) { self.start.fetch_add(1, Ordering::SeqCst); let mut spins = 0u32; while self.start.load(Ordering::SeqCst) < self.nthreads { spins += 1; if spins > 2000 { std::thread::yield_now(); } else { std::hint::spin_loop(); } } }
 }
 fn check(sh: &Shared, got: &[u8], exp: &[u8], ptr: usize, exp_ptr: Option<usize>) {
     if got != exp { sh.bad_reads.fetch_add(1, Ordering::Relaxed); }
@@ -127,7 +127,7 @@ pub fn conc(out: &mut dyn Write, seed: u64, n: usize) {
         let progs_s: Vec<String> = progs.iter().map(|p| p.iter().map(|x| (x % 8).to_string()).collect::<Vec<_>>().join("")).collect();
         writeln!(out, "X case={} rep={} threads={} off={} prog={} bad_reads={} zero_copy_owners={} alloc_violations={} leak={} detail={}", case, repname, nthreads, off, progs_s.join("/"),
                  sh.bad_reads.load(Ordering::Relaxed), sh.zero_copy.load(Ordering::Relaxed), viol, leak as u8, if detail.is_empty() { "-" } else { &detail }).unwrap();
-        if case % 64 == 0 { crate::progress(&format!("conc case {}", case)); }
+        crate::progress(&format!("conc case {}", case));
     }
     ledger::reset(false);
 }
